@@ -360,6 +360,14 @@ func (t *tr) sideCall(s *ast.ExprStmt, en *env) (*Node, bool) {
 func (t *tr) returnEff(s *ast.ReturnStmt, en *env) (*Node, error) {
 	res := en.fr.res
 
+	if en.fr.void {
+		if len(s.Results) != 0 {
+			return nil, t.pkg.errorf(s.Pos(), "return with a value in a function without results")
+		}
+
+		return unitRet(), nil
+	}
+
 	if len(s.Results) == 1 {
 		call, is, err := t.stmtCall(s.Results[0], en)
 		if err != nil {
